@@ -565,7 +565,7 @@ def desugar(F):
 _IT = 'std::iter::Iterator::'
 FUSE_ADAPTORS = {_IT + 'map': 'map', _IT + 'filter': 'filter', _IT + 'filter_map': 'filter_map', _IT + 'inspect': 'inspect'}
 FUSE_CONSUMERS = {_IT + 'for_each': 'for_each', _IT + 'try_for_each': 'try_for_each', _IT + 'any': 'any', _IT + 'all': 'all',
-                  _IT + 'find_map': 'find_map', _IT + 'fold': 'fold', _IT + 'collect': 'collect', _IT + 'try_fold': 'try_fold'}
+                  _IT + 'find_map': 'find_map', _IT + 'find': 'find', _IT + 'fold': 'fold', _IT + 'collect': 'collect', _IT + 'try_fold': 'try_fold'}
 
 
 def _def_call_block(b, op):
@@ -615,6 +615,18 @@ def fuse_iterators(F):
                 cclo.argc = 2
                 cclo.kind = 'closure'
                 cclo.parent = p
+            if cons == 'find' and cclo is not None:
+                # a predicate that only compares (`|s| s.hash == h`) stays a `find` call - the value rules read that as it is;
+                # one that looks things up (maps, nested searches, crate calls) is unfolded
+                pure = True
+                for blk_ in cclo.blocks:
+                    t_ = blk_['term']
+                    if t_ and t_['k'] == 'call':
+                        c_ = _callee_fn(t_) or ''
+                        if not (c_.startswith('std::cmp::') or c_ in ('std::ops::Deref::deref', 'std::convert::AsRef::as_ref', 'std::borrow::Borrow::borrow', 'std::clone::Clone::clone')):
+                            pure = False
+                if pure:
+                    continue
             if cclo is None and cons != 'collect':
                 continue
             if cons == 'collect' and not re.match(r'^(?:std|alloc)::vec::Vec<', b.locals[t['dst']['l']]['ty']):
@@ -649,7 +661,7 @@ def fuse_iterators(F):
                 src = at['args'][0]
             if src['k'] == 'const' or src['p']['proj']:
                 continue
-            want = {'for_each': 2, 'try_for_each': 2, 'any': 2, 'all': 2, 'find_map': 2, 'fold': 3, 'collect': 0, 'try_fold': 3}[cons]
+            want = {'for_each': 2, 'try_for_each': 2, 'any': 2, 'all': 2, 'find_map': 2, 'find': 2, 'fold': 3, 'collect': 0, 'try_fold': 3}[cons]
             if cons == 'collect':
                 if not stages or not any(k in ('map', 'filter_map') for k, _, _ in stages):
                     continue        # a bare `iter.collect()` builds the collection from the items as they are: nothing to unfold
@@ -677,7 +689,7 @@ def fuse_iterators(F):
             if first is None:
                 continue
             item_ty = first.locals[3 if (cons in ('fold', 'try_fold') and not stages) else 2]['ty']
-            if stages and stages[0][0] in ('filter', 'inspect'):
+            if (stages and stages[0][0] in ('filter', 'inspect')) or (not stages and cons == 'find'):
                 item_ty = re.sub(r'^&', '', item_ty)
             elif not stages and cons in ():
                 pass
@@ -694,7 +706,7 @@ def fuse_iterators(F):
                 erv = [dict(pos, dst=unit, rv={'k': 'use', 'ops': [{'k': 'const', 'ty': '()', 'dbg': '()'}]}), dict(pos, dst=dst, rv=_agg('Ok', {'k': 'move', 'p': unit}))]
             elif cons in ('any', 'all'):
                 erv = [dict(pos, dst=dst, rv={'k': 'use', 'ops': [{'k': 'const', 'ty': 'bool', 'v': 1 if cons == 'all' else 0, 'dbg': 'true' if cons == 'all' else 'false'}]})]
-            elif cons == 'find_map':
+            elif cons in ('find_map', 'find'):
                 erv = [dict(pos, dst=dst, rv={'k': 'agg', 'ak': 'adt', 'adt': 'std::option::Option', 'variant': 0, 'vname': 'None', 'fields': [], 'ops': []})]
             elif cons == 'fold':
                 acc = newlocal(dty)
@@ -768,6 +780,13 @@ def fuse_iterators(F):
                 cont = newblock([dict(pos, dst=acc, rv=use({'l': tmp['l'], 'proj': [{'dc': 0, 'name': 'Ok'}, {'f': 0, 'name': '0', 'ty': aty}]}))], dict(pos, k='goto', target=H))
                 brk = newblock([dict(pos, dst=dst, rv=use(tmp))], dict(pos, k='goto', target=target))
                 b.blocks[nb_]['term'] = dict(pos, k='switch', on={'k': 'move', 'p': d3}, targets=[[0, cont]], otherwise=brk, fused=True)
+            elif cons == 'find':
+                # loop { x = next()?; if pred(&x) { break Some(x) } }
+                r = newlocal('&' + cur_ty)
+                b.blocks[cur_block]['stmts'].append(dict(pos, dst=r, rv={'k': 'ref', 'mut': False, 'p': cur_val}))
+                tmp, nb_ = call_closure(cur_block, cop, cclo, [{'k': 'move', 'p': r}], crty)
+                hit = newblock([dict(pos, dst=dst, rv=_agg('Some', {'k': 'move', 'p': cur_val}))], dict(pos, k='goto', target=target))
+                b.blocks[nb_]['term'] = dict(pos, k='switch', on={'k': 'move', 'p': tmp}, targets=[[0, H]], otherwise=hit, fused=True)
             else:
                 tmp, nb_ = call_closure(cur_block, cop, cclo, [{'k': 'move', 'p': cur_val}], crty)
                 if cons == 'for_each':
@@ -801,6 +820,198 @@ def fuse_iterators(F):
             b._cfg_cache = None
             done.append((cons, p))
     return done
+
+
+def _map_place(p, lm):
+    q = {'l': lm.get(p['l'], p['l']), 'proj': []}
+    for e in p['proj']:
+        if isinstance(e, dict) and 'idx' in e:
+            e = dict(e, idx=lm.get(e['idx'], e['idx']))
+        q['proj'].append(e)
+    return q
+
+
+def _map_op(op, lm):
+    return dict(op, p=_map_place(op['p'], lm)) if 'p' in op else op
+
+
+def _map_rv(rv, lm):
+    rv = dict(rv)
+    if 'p' in rv:
+        rv['p'] = _map_place(rv['p'], lm)
+    if 'ops' in rv:
+        rv['ops'] = [_map_op(o, lm) for o in rv['ops']]
+    return rv
+
+
+def _map_term(t, lm, bm):
+    t = dict(t)
+    for k in ('target', 'otherwise'):
+        if isinstance(t.get(k), int):
+            t[k] = bm.get(t[k], t[k])
+    if 'targets' in t:
+        t['targets'] = [[v, bm.get(tg, tg)] for v, tg in t['targets']]
+    for k in ('on', 'cond', 'value'):
+        if isinstance(t.get(k), dict) and 'k' in t[k]:
+            t[k] = _map_op(t[k], lm)
+    if 'args' in t:
+        t['args'] = [_map_op(a, lm) for a in t['args']]
+    if isinstance(t.get('dst'), dict) and 'l' in t['dst']:
+        t['dst'] = _map_place(t['dst'], lm)
+    if isinstance(t.get('p'), dict) and 'l' in t['p']:
+        t['p'] = _map_place(t['p'], lm)
+    if isinstance(t.get('func'), dict) and 'p' in t['func']:
+        t['func'] = _map_op(t['func'], lm)
+    return t
+
+
+def unroll_array_loops(b):
+    """A fused loop over `[x, y].iter()` (an array literal of at most four elements) is unrolled: one copy of the loop body per
+    element, the item being a reference to that element's own operand.  `scans.iter().all(|s| test(s))` over `[a, b]` is then
+    `test(a) && test(b)` - which scan is consulted on which path becomes visible to the edge rules."""
+    import cfg as _cfg
+    changed = False
+    for _round in range(6):
+        did = False
+        cf = _cfg.CFG(b)
+        for H in range(len(b.blocks)):
+            t = b.blocks[H]['term']
+            if not t or t['k'] != 'call' or not t.get('fused') or (_callee(t) or '') != 'std::iter::Iterator::next' or H not in cf.reachable():
+                continue
+            stmts = b.blocks[H]['stmts']
+            if len(stmts) != 1 or stmts[0]['rv']['k'] != 'ref' or stmts[0]['rv']['p']['proj']:
+                continue
+            src = stmts[0]['rv']['p']['l']
+            elems = _array_elements_behind(b, src)
+            if not elems or len(elems) > 4:
+                continue
+            S = t['target']
+            st_ = b.blocks[S]['term']
+            if st_['k'] != 'switch' or len(st_['targets']) != 1 or st_['targets'][0][0] != 0:
+                continue
+            E, B0 = st_['targets'][0][1], st_['otherwise']
+            region = cf.loop_blocks(H) if hasattr(cf, 'loop_blocks') else None
+            if not region or H not in region or S not in region or B0 not in region or E in region:
+                continue
+            body = sorted(region - {H, S})
+            b0s = b.blocks[B0]['stmts']
+            if not b0s or b0s[0]['rv']['k'] != 'use' or b0s[0]['rv']['ops'][0]['k'] == 'const' or b0s[0]['rv']['ops'][0]['p']['l'] != t['dst']['l']:
+                continue
+            x_local = b0s[0]['dst']['l']
+            nx_local = t['dst']['l']
+            # locals defined inside the body only are renamed per copy
+            inside = set()
+            for bi in body:
+                for s_ in b.blocks[bi]['stmts']:
+                    inside.add(s_['dst']['l'])
+                tt = b.blocks[bi]['term']
+                if tt and isinstance(tt.get('dst'), dict) and 'l' in tt['dst']:
+                    inside.add(tt['dst']['l'])
+            outside = set()
+            for bi, blk in enumerate(b.blocks):
+                if bi in region:
+                    continue
+                for s_ in blk['stmts']:
+                    outside.add(s_['dst']['l'])
+                tt = blk['term']
+                if tt and isinstance(tt.get('dst'), dict) and 'l' in tt['dst']:
+                    outside.add(tt['dst']['l'])
+            rename = sorted(l for l in inside - outside if l > b.argc)
+            pos = {'line': t.get('line'), 'col': t.get('col'), 'exp': False}
+            entries = []
+            copies = []
+            for k, el in enumerate(elems):
+                lm = {}
+                for l in rename:
+                    b.locals.append(dict(b.locals[l]))
+                    lm[l] = len(b.locals) - 1
+                bm = {}
+                base = len(b.blocks)
+                for j, bi in enumerate(body):
+                    bm[bi] = base + j
+                copies.append((lm, bm))
+                for bi in body:
+                    blk = b.blocks[bi]
+                    nb = {'stmts': [dict(s_, dst=_map_place(s_['dst'], lm), rv=_map_rv(s_['rv'], lm)) for s_ in blk['stmts']], 'cleanup': blk.get('cleanup', False),
+                          'term': _map_term(blk['term'], lm, bm)}
+                    b.blocks.append(nb)
+                # the item of this copy: a reference to a fresh local holding the element's operand
+                ety = re.sub(r'^&', '', b.locals[x_local]['ty'])
+                b.locals.append({'ty': ety, 'name': None, 'user': False})
+                el_local = len(b.locals) - 1
+                nb0 = b.blocks[bm[B0]]
+                nb0['stmts'] = [dict(pos, dst={'l': el_local, 'proj': []}, rv={'k': 'use', 'ops': [dict(el, k='copy') if el['k'] != 'const' else el]}),
+                                dict(pos, dst={'l': lm.get(x_local, x_local), 'proj': []}, rv={'k': 'ref', 'mut': False, 'p': {'l': el_local, 'proj': []}})] + nb0['stmts'][1:]
+                entries.append(bm[B0])
+            # back edges of copy k go to copy k+1 (the last one to the exhausted exit)
+            for k, (lm, bm) in enumerate(copies):
+                nxt = entries[k + 1] if k + 1 < len(entries) else E
+                for bi in body:
+                    nb = b.blocks[bm[bi]]
+                    tt = nb['term']
+                    for key in ('target', 'otherwise'):
+                        if tt.get(key) == H:
+                            tt[key] = nxt
+                    if 'targets' in tt:
+                        tt['targets'] = [[v, nxt if tg == H else tg] for v, tg in tt['targets']]
+            # the loop head goes straight into the first copy
+            b.blocks[H] = {'stmts': [], 'cleanup': False, 'term': dict(pos, k='goto', target=entries[0], unrolled=len(elems))}
+            b._cfg_cache = None
+            did = changed = True
+            break
+        if not did:
+            break
+    return changed
+
+
+def _array_elements_behind(b, src):
+    """operands of the array literal a `slice::iter()` / `into_iter()` source iterates over, through plain moves / refs"""
+    def single_def(l):
+        ds = [st for blk in b.blocks for st in blk['stmts'] if st['dst']['l'] == l]
+        cs = [blk['term'] for blk in b.blocks if blk['term'] and blk['term']['k'] == 'call' and isinstance(blk['term'].get('dst'), dict) and blk['term']['dst'].get('l') == l]
+        if len(ds) + len(cs) != 1:
+            return None
+        return ('st', ds[0]) if ds else ('call', cs[0])
+    cur, hops = src, 0
+    while hops < 10:
+        hops += 1
+        d = single_def(cur)
+        if d is None:
+            return None
+        kind, x = d
+        if kind == 'call':
+            c = _callee_fn(x) or ''
+            if (c.endswith('slice::<impl [T]>::iter') or c.endswith('IntoIterator::into_iter') or c.endswith('::iter')) and x['args'] and x['args'][0]['k'] != 'const':
+                cur = x['args'][0]['p']['l']
+                continue
+            return None
+        if x['dst']['proj']:
+            return None
+        rv = x['rv']
+        if rv['k'] == 'agg' and rv.get('ak') == 'array':
+            return list(rv['ops'])
+        pl = rv['ops'][0]['p'] if rv['k'] in ('use', 'cast') and rv['ops'][0]['k'] != 'const' else rv['p'] if rv['k'] == 'ref' else None
+        if pl is None:
+            return None
+        fields = [e for e in pl['proj'] if e != 'deref']
+        if not fields:
+            cur = pl['l']
+            continue
+        if len(fields) == 1 and isinstance(fields[0], dict) and 'f' in fields[0]:
+            # a captured variable read through the environment of a spliced closure (or a tuple field): what it was built with
+            d2 = single_def(pl['l'])
+            while d2 is not None and d2[0] == 'st' and d2[1]['rv']['k'] in ('use', 'ref') and not d2[1]['dst']['proj']:
+                q = d2[1]['rv']['ops'][0]['p'] if d2[1]['rv']['k'] == 'use' and d2[1]['rv']['ops'][0]['k'] != 'const' else d2[1]['rv'].get('p')
+                if q is None or [e for e in q['proj'] if e != 'deref']:
+                    break
+                d2 = single_def(q['l'])
+            if d2 is not None and d2[0] == 'st' and d2[1]['rv']['k'] == 'agg' and d2[1]['rv'].get('ak') in ('closure', 'tuple') and fields[0]['f'] < len(d2[1]['rv']['ops']):
+                op2 = d2[1]['rv']['ops'][fields[0]['f']]
+                if op2['k'] != 'const' and not [e for e in op2['p']['proj'] if e != 'deref']:
+                    cur = op2['p']['l']
+                    continue
+        return None
+    return None
 
 
 def _closure_literal_behind(F, b, op, depth=0):
@@ -1278,6 +1489,7 @@ def apply(F, log=None):
             break
     for p_ in sorted({p for _, p in done}):
         if p_ in F.bodies:
+            unroll_array_loops(F.bodies[p_])
             sroa_tuples(F.bodies[p_])
             thread_jumps(F.bodies[p_])
     if done:
